@@ -25,9 +25,9 @@ REVIEW = [
     (r"^errorcode::decoding::syndrome_based::find_error_values_bp$", r".*", "not-decided:rs-index-algebra", "Bjoerck-Pereyra index arithmetic over e = number of located errors"),
     (r"^errorcode::decoding::syndrome_based::find_inv_error_locations_levinson_durbin", r".*", "not-decided:rs-index-algebra", "Levinson-Durbin index algebra (v <= t after the start-up rejection); no analysis in reach bounds it"),
     (r"^placement::IndexTraversal::(corner[1-4]|utah|idx|run)$", r"overflow-(add|sub|mul)", "table-invariant:dims-small", "isize arithmetic on matrix dimensions <= 132 and sweep coordinates within a few units of them (TAB-SYM; IndexTraversal is only built from a MatrixMap's own dimensions: TAB-PLC dims)"),
-    (r"^placement::IndexTraversal::idx$", r"panic", "not-decided:placement-index", "debug assertions that the wrapped coordinates are inside the matrix: a property of the Annex F algorithm per size"),
-    (r"^placement::IndexTraversal::run$", r"bounds", "not-decided:placement-index", "visited[..] index validity follows from the Annex F algorithm (equal to the reference program by TAB-PLC; exercised for all 48 sizes by test_tile_placement_forth_and_back)"),
-    (r"^placement::MatrixMap::(traverse|traverse_mut|codewords|copy_from_codewords)(::\{closure#0\})?$", r"bounds", "not-decided:placement-index", "entries[indices[k]] / data[idx]: index validity of the Annex F traversal"),
+    (r"^placement::IndexTraversal::idx$", r"panic", "relies-on:PLC-INDEX", "debug assertions that the wrapped coordinates are inside the matrix: evaluated without a trap when the traversal is folded for the mapping matrix of every size"),
+    (r"^placement::IndexTraversal::run$", r"bounds", "relies-on:PLC-INDEX", "visited[..] index validity: every index is evaluated in range when the traversal is folded for the mapping matrix of every size"),
+    (r"^placement::MatrixMap::(traverse|traverse_mut|codewords|copy_from_codewords)(::\{closure#0\})?$", r"bounds", "relies-on:PLC-INDEX", "entries[indices[k]] / data[idx]: the folded traversal hands out Annex F's indices (< h*w) and codeword numbers (< h*w/8), and every map the crate builds has h*w entries"),
     (r"^placement::MatrixMap::try_from_bits$", r"assert", "table-invariant:region-arith", "debug assertions on band/row sizes: exact because height = (blk_h+2)*(eh+1) and width = (blk_w+2)*(ev+1) for the matched catalogue size (TAB-SYM area/divisibility)"),
     (r"^placement::MatrixMap::try_from_bits$", r"overflow-mul|overflow-sub|slice-range|panic", "table-invariant:region-arith", "products/differences/slices of catalogue dimensions; chunk size (blk_h+2)*width > 0 because width != 0 (DOM-BITMAP); entries.len() = w*h >= w+2"),
     (r"^placement::MatrixMap::try_from_bits::\{closure#0\}$|^symbol_size::SymbolList::.*\{closure#\d\}$", r"trap|unwrap", "std-internal", "BTreeSet iterator invariant (navigate.rs unwrap) inlined into the closure's caller"),
